@@ -18,7 +18,7 @@ abbrev PR := Except ParseErr
 def strOf (cs : List Nat) : String := String.ofList (cs.map Char.ofNat)
 
 /-- `pair.as_str()` as code points. -/
-def txt (inp : Array Nat) (p : Pair) : List Nat := (inp.toList.drop p.start).take (p.stop - p.start)
+def txt (inp : Array Nat) (p : Pair) : List Nat := (inp.extract p.start p.stop).toList
 
 /-! ### numbers -/
 
